@@ -149,3 +149,7 @@ V('C19', 'config-object-eq-by-spec-identity', 'edb/server/config/types.py',
   'edb.server.config.types.CompositeConfigType.__eq__',
   'self._tspec != rhs._tspec', 'self._tspec is not rhs._tspec', 'C19.R10',
   '__eq__:by-value')
+V('C19', 'revert-fix-memory-not-rendered', 'edb/schema/utils.py',
+  'edb.schema.utils.const_ast_from_python',
+  '    elif isinstance(val, statypes.ConfigMemory):', '    elif False:', 'C19.R5',
+  'const_ast_from_python:kind=ConfigMemory')
